@@ -71,6 +71,25 @@ def build(P):
                    "DECLARE s : STRING\nFOR s <- 1 TO 2\nNEXT", "FOR i <- 9223372036854775806 TO 9223372036854775807\nOUTPUT i\nIF i < 0 THEN\nBREAK\nENDIF\nNEXT"]
         progs = [Case(id="C03-shape-%d" % i, prog=(s + "\n").encode()) for i, s in enumerate(shapes)]
         yield ("shapes", progs)
+        # CASE matrix: every selector value (INTEGER, REAL incl. non-integral and negative, CHAR, STRING, BOOLEAN, DATE, enum) against label lists that mix
+        # INTEGER / REAL labels, ranges and overlapping clauses in different orders: exactly the first matching clause runs, OTHERWISE only when none matches
+        sel = {"INTEGER": ["- 1", "0", "1", "2", "3", "4", "5"], "REAL": ["- 1.0", "- 0.5", "0.0", "0.5", "1.0", "1.5", "2.0", "2.5", "3.0", "3.5", "4.0", "4.5"],
+               "CHAR": ["'a'", "'b'", "'c'", "'d'", "'B'"], "STRING": ['"a"', '"b"', '"ab"', '""'], "BOOLEAN": ["TRUE", "FALSE"], "DATE": ["1/1/2001", "2/1/2001", "1/2/2001"], "Col": ["Red", "Green", "Blue"]}
+        labs = {"INTEGER": [["0", "1", "2", "2.5 TO 3.5", "4"], ["0.5", "1.5", "2 TO 3", "- 1 TO - 0.5"], ["1 TO 2", "2 TO 3", "0"], ["3", "1.0", "2.0 TO 2.0"], ["4 TO 1", "2"], ["- 1", "0 TO 0", "1 TO 4.5"]],
+                "CHAR": [["'a'", "'b' TO 'c'", "'B'"], ["'c' TO 'a'", "'b'"], ["\"a\"", "'d'"]], "STRING": [['"a"', '"ab"', '""'], ['"a" TO "b"', '"b"'], ["'a'", '"b"']],
+                "BOOLEAN": [["TRUE"], ["FALSE", "TRUE"], ["FALSE TO TRUE"]], "DATE": [["1/1/2001", "2/1/2001"], ["1/1/2001 TO 31/1/2001", "1/2/2001"]], "Col": [["Red", "Blue"], ["Red TO Green", "Blue"], ["Green", "Green"]]}
+        labs["REAL"] = labs["INTEGER"]
+        cm = []
+        for ty, vals in sel.items():
+            for ll in labs[ty]:
+                for with_other in (True, False):
+                    L = ["TYPE Col = (Red, Green, Blue)", "DECLARE x : %s" % ty]
+                    for v in vals:
+                        L += ["x <- %s" % v, "OUTPUT \"sel \", x", "CASE OF x"] + ["%s : OUTPUT \"  clause %d\"" % (lb, k) for k, lb in enumerate(ll)]
+                        if with_other: L += ["OTHERWISE : OUTPUT \"  otherwise\""]
+                        L += ["ENDCASE"]
+                    cm.append("\n".join(L + ["OUTPUT \"end\""]))
+        yield ("case-matrix", [Case(id="C03-case-%d" % i, prog=(sp + "\n").encode(), meta=dict(units=["case/%d" % i])) for i, sp in enumerate(cm)])
         # generator
         n = sizes(tier, 1200, 30000)
         cs = []
@@ -88,7 +107,7 @@ def build(P):
         return []
 
     C03 = dict(cases=c03_cases, builds_quick=["normal", "san"], model_is_oracle=("out", "exit", "files", "termination"), oracle=c03_oracle,
-               nontrivial=lambda c, r, m: (b"@" in r.out) or ("expect" in c.meta) or c.id.startswith("C03-shape"),
+               nontrivial=lambda c, r, m: (b"@" in r.out) or ("expect" in c.meta) or c.id.startswith("C03-shape") or c.id.startswith("C03-case"),
                rule="(start,stop,step) cube [-3,3]^3 (quick) / [-4,4]^3 (thorough) with bounds re-assigned in the body, expected sequence computed by the harness; "
                     "hand-built BREAK/CONTINUE/CASE/condition-type shapes in all loop forms, nested; typed generator nesting IF/CASE/WHILE/REPEAT/FOR to depth 4 with "
                     "trace OUTPUTs; non-trivial = distinct program in which a loop body or branch trace ran (or a cube/shape case)")
@@ -209,6 +228,22 @@ def build(P):
             cs.append(Case(id="C20-insn-%d-%s" % (i, kind), prog=render(mut), ped=False, stdin=b"5\nabc\n", meta=dict(kind="insert-nonped")))
         for ch in chunks(cs, 500):
             yield ("generator", ch)
+        # statement forms a pedantic-clean program may contain besides the generator's: bare expressions and calls used as statements (their value is
+        # discarded in a program file, with or without the option), every declaration form, file statements, INPUT into declared variables
+        forms = [
+            "DECLARE total : INTEGER\nDECLARE name : STRING\nFUNCTION Bump(BYREF n : INTEGER) RETURNS INTEGER\nn <- n + 1\nRETURN n\nENDFUNCTION\ntotal <- 0\nname <- \"abc\"\nFOR i <- 1 TO 3\nBump(total)\nNEXT i\nLENGTH(name)\ntotal * 2\ntotal\nname\n\"lit\"\n'c'\n2.5\nTRUE\n1/2/2003\nOUTPUT \"total = \", total",
+            "TYPE Col = (Red, Green)\nTYPE PI = ^INTEGER\nTYPE R\nDECLARE f : INTEGER\nENDTYPE\nDECLARE c : Col\nDECLARE p : PI\nDECLARE r : R\nDECLARE x : INTEGER\nc <- Green\np <- ^x\nr.f <- 4\nc\np\nr\nr.f\np^\nRed\nc = Green\nOUTPUT c, \" \", r.f",
+            "DECLARE a : ARRAY[1:3] OF INTEGER\nCONSTANT K = 5\na[2] <- K\na[2]\nK\nK + a[2]\nOUTPUT a[2]",
+            "DECLARE s : STRING\nDECLARE n : INTEGER\nINPUT n\nINPUT s\nn\ns\nOUTPUT n, s",
+            "DECLARE line : STRING\nOPENFILE \"pf.txt\" FOR WRITE\nWRITEFILE \"pf.txt\", 12\nCLOSEFILE \"pf.txt\"\nOPENFILE \"pf.txt\" FOR READ\nEOF(\"pf.txt\")\nREADFILE \"pf.txt\", line\nEOF(\"pf.txt\")\nCLOSEFILE \"pf.txt\"\nOUTPUT line",
+            "PROCEDURE P(v : INTEGER)\nv + 1\nOUTPUT v\nENDPROCEDURE\nFUNCTION F(v : INTEGER) RETURNS INTEGER\nv * 2\nRETURN v * 2\nENDFUNCTION\nCALL P(3)\nF(4)\nOUTPUT F(5)",
+            "DECLARE k : INTEGER\nk <- 0\nWHILE k < 3 DO\nk <- k + 1\nk\nENDWHILE\nREPEAT\nk <- k - 1\nk * k\nUNTIL k = 0\nCASE OF k\n0 : k + 1\nOTHERWISE : k + 2\nENDCASE\nIF k = 0 THEN\nk\nELSE\nk + 1\nENDIF\nOUTPUT \"done \", k",
+        ]
+        fcs = []
+        for fi, prog_text in enumerate(forms):
+            for flag in (False, "-p", "--pedantic"):
+                fcs.append(Case(id="C20-form-%d-%s" % (fi, flag), prog=(prog_text + "\n").encode(), ped=flag, stdin=b"5\nabc\n", meta=dict(pair="form%d" % fi, kind="clean")))
+        yield ("statement-forms", fcs)
         # argument handling
         yield ("args", [Case(id="C20-args-%s" % f, prog=b"OUTPUT 1\nBREAK\n", ped=f, meta=dict(kind="args")) for f in (False, "-p", "--pedantic")])
 
